@@ -172,7 +172,11 @@ func (k Keeper) UpdateLPRewards(ctx sdk.Context) error {
 	if err != nil {
 		return err
 	}
-	gasFeesForLpsDec = gasFeesForLpsDec.Add(perpRevenue...)
+	// only whole coins were transferred to the module by the two collectors above:
+	// credit exactly those, not their fractional remainders
+	gasFeesForLpsCoins, _ := gasFeesForLpsDec.TruncateDecimal()
+	perpRevenueCoins, _ := perpRevenue.TruncateDecimal()
+	gasFeesForLpsDec = sdk.NewDecCoinsFromCoins(gasFeesForLpsCoins.Add(perpRevenueCoins...)...)
 	_, _, rewardsPerPool, err := k.CollectDEXRevenue(ctx)
 	if err != nil {
 		return err
